@@ -30,13 +30,14 @@ theorem assertAppliesLayer_compile (mt : Str → Str → Bool) (g : PGraph Str) 
       · exact absurd h ho'
       · rfl
     cases verb <;> cases exc <;>
-      simp [assertAppliesLayer, compileLayerRule, anythingMisused, convertAliases, configMissing, RuleConfig.behavior,
+      simp [assertAppliesLayer, compileLayerRule, anythingMisused, droppedAbsent, convertAliases, configMissing, RuleConfig.behavior,
         Behavior.inconsistent, Behavior.explReq, Behavior.explForb, Behavior.otherReq, Behavior.otherForb,
         hs1, ho1, behL]
   · have hv : verb = .shouldNot := hany rfl
     subst hv
     have hdd' := hdd rfl
-    simp [assertAppliesLayer, compileLayerRule, anythingMisused, convertAliases, configMissing, RuleConfig.behavior,
+    simp [assertAppliesLayer, compileLayerRule, anythingMisused, droppedAbsent,
+        droppedSubjects_of_dedup_eq _ hdd', convertAliases, configMissing, RuleConfig.behavior,
         Behavior.inconsistent, Behavior.explReq, Behavior.explForb, Behavior.otherReq, Behavior.otherForb,
         hs1, hdd', behL]
 
